@@ -116,9 +116,11 @@ Inductive op :=
 | OpEstimate (v chain id value : Z)
 | OpElect (chain id est : Z) (f : fees)   (* one message in the end-blocker: estimate elected, fees computed *)
 | OpRemove (chain id : Z)
-| OpReassign (chain id relayer : Z).      (* Queue.ReassignValidator — no production caller *)
+| OpReassign (chain id relayer : Z)       (* Queue.ReassignValidator — no production caller *)
+| OpReplace (chain id body : Z).          (* Queue.Put{MsgIDToReplace} with ANY new message body: SignData kept.  Its only
+                                             production caller is the fee attachment inside OpElect (Gen.C06.replace_callers) *)
 
-Definition live_op (o : op) : Prop := match o with OpReassign _ _ _ => False | _ => True end.
+Definition live_op (o : op) : Prop := match o with OpReassign _ _ _ | OpReplace _ _ _ => False | _ => True end.
 
 (** valset.GetSigningKey *)
 Fixpoint accts_of (reg : list (Z * list acct)) (v : Z) : list acct :=
@@ -192,6 +194,13 @@ Definition reassign (it : item) (r : Z) : item :=
      it_relayer := r; it_needs_est := it_needs_est it; it_estimates := it_estimates it;
      it_est := it_est it; it_fees := it_fees it; it_sigs := it_sigs it |}.
 
+(** Queue.Put with MsgIDToReplace, in general: the stored message is swapped for the one handed in, SignData (and the
+    estimates) stay.  [it_body] stands for everything in the message that the caller may have changed. *)
+Definition with_body (it : item) (b : Z) : item :=
+  {| it_id := it_id it; it_chain := it_chain it; it_kind := it_kind it; it_body := b;
+     it_relayer := it_relayer it; it_needs_est := it_needs_est it; it_estimates := it_estimates it;
+     it_est := it_est it; it_fees := it_fees it; it_sigs := it_sigs it |}.
+
 (** The duplicate loop of AddSignature: for each stored entry, same key first, then same validator. *)
 Fixpoint dup_check (l : list sigent) (v key : Z) : option res :=
   match l with
@@ -260,6 +269,11 @@ Definition step (s : state) (o : op) : state * res :=
       | None => (s, RNoMsg)
       | Some _ => (set_items s (upd_item (st_items s) id (fun it => reassign it r)), ROk)
       end
+  | OpReplace chain id b =>
+      match find_item (st_items s) chain id with
+      | None => (s, RNoMsg)
+      | Some _ => (set_items s (upd_item (st_items s) id (fun it => with_body it b)), ROk)
+      end
   end.
 
 Definition run_from (s : state) (ops : list op) : state := fold_left (fun s o => fst (step s o)) ops s.
@@ -292,6 +306,8 @@ Arguments OpEstimate {Sig} _ _ _ _.
 Arguments OpElect {Sig} _ _ _ _.
 Arguments OpRemove {Sig} _ _.
 Arguments OpReassign {Sig} _ _ _.
+Arguments OpReplace {Sig} _ _ _.
+Arguments with_body {Sig} _ _.
 Arguments live_op {Sig} _.
 Arguments init {Sig}.
 Arguments find_item {Sig} _ _ _.
